@@ -365,6 +365,10 @@ Section EncAuth.
     exists s' r, eseek_start s q = (s', r) /\ InvA s' /\ (r = Ok q \/ exists e, r = Err e) /\ seek_post s' r.
   Proof.
     intros (Hin & Hcp & Hc). destruct Hin as [pin HR]. unfold EncLayer.eseek_start.
+    destruct (_ <? q / CHUNK).
+    { (* the D20 guard: InvalidInput, nothing touched *)
+      eexists _, _. split; [reflexivity|]. split; [split; [eexists; exact HR|split; assumption]|].
+      split; [right; eexists; reflexivity | exact I]. }
     destruct (dm_spec q CHUNK HCHUNK) as [Hqd Hr].
     set (k := q / CHUNK) in *. set (r := q mod CHUNK) in *.
     assert (Hnt : notag2tag CHUNK TAG q = k * CTS + r).
@@ -393,35 +397,93 @@ Section EncAuth.
       + split; [right; eexists; reflexivity | exact I].
   Qed.
 
-  Theorem eseek_inv s wh : InvA s ->
-    exists s' r, eseek s wh = (s', r) /\ InvA s' /\ (forall c, r <> Crash c) /\ seek_post s' r.
+  (* every whence, any argument: the invariant is kept and an Ok result is the new position.  The only panic site
+     of `seek` is `i64::try_from(current).unwrap()` in the Current arm (524): position >= 2^63, nothing touched. *)
+  Theorem eseek_inv_weak s wh : InvA s ->
+    exists s' r, eseek s wh = (s', r) /\ InvA s' /\ seek_post s' r /\
+      (forall c, r = Crash c -> c = 524 /\ 2 ^ 63 <= epos s /\ s' = s).
   Proof.
     intros HI. pose proof HI as (Hin & Hcp & Hc).
     assert (Hfin : forall s0 q, InvA s0 ->
-      exists s' r, eseek_start s0 q = (s', r) /\ InvA s' /\ (forall c, r <> Crash c) /\ seek_post s' r).
+      exists s' r, eseek_start s0 q = (s', r) /\ InvA s' /\ seek_post s' r /\
+        (forall c, r = Crash c -> c = 524 /\ 2 ^ 63 <= epos s /\ s' = s)).
     { intros s0 q H0. destruct (eseek_start_inv s0 q H0) as (s' & r & He & HI' & Hr & Hp).
-      exists s', r. split; [exact He|]. split; [exact HI'|]. split; [|exact Hp].
+      exists s', r. split; [exact He|]. split; [exact HI'|]. split; [exact Hp|].
       intros c Hcr. destruct Hr as [->|[e ->]]; discriminate. }
     unfold EncLayer.eseek. destruct wh as [q|d|d].
     - apply Hfin; exact HI.
     - destruct (d =? 0)%Z.
-      + eexists _, _. split; [reflexivity|]. split; [exact HI|]. split; [discriminate | reflexivity].
-      + unfold seek_target. destruct (Z.of_N (e_chunk s * CHUNK + e_cpos s) + d <? 0)%Z.
-        * eexists _, _. split; [reflexivity|]. split; [exact HI|]. split; [discriminate | exact I].
+      + eexists _, _. split; [reflexivity|]. split; [exact HI|]. split; [reflexivity | discriminate].
+      + destruct (N.leb_spec (2 ^ 63) (e_chunk s * CHUNK + e_cpos s)) as [Hbig|_].
+        { eexists _, _. split; [reflexivity|]. split; [exact HI|]. split; [exact I|].
+          intros c [= <-]. auto. }
+        unfold seek_target. destruct (Z.of_N (e_chunk s * CHUNK + e_cpos s) + d <? 0)%Z.
+        * eexists _, _. split; [reflexivity|]. split; [exact HI|]. split; [exact I | discriminate].
         * apply Hfin; exact HI.
     - destruct (0 <? d)%Z.
-      + eexists _, _. split; [reflexivity|]. split; [exact HI|]. split; [discriminate | exact I].
+      + eexists _, _. split; [reflexivity|]. split; [exact HI|]. split; [exact I | discriminate].
       + destruct Hin as [pin HR].
         destruct (skb_end _ _ _ HS (e_in s) pin HR) as (i' & Hsk & HR'). rewrite Hsk.
         assert (HI1 : InvA (mkE i' (e_cache s) (e_cpos s) (e_chunk s))).
         { split; [eexists; exact HR'|]. split; assumption. }
         destruct (end_pos_of_inner CHUNK TAG (len w)) as [ep|e|c] eqn:Eep.
-        * unfold seek_target. destruct (Z.of_N ep + d <? 0)%Z.
-          -- eexists _, _. split; [reflexivity|]. split; [exact HI1|]. split; [discriminate | exact I].
+        * destruct (2 ^ 63 <=? ep).
+          { eexists _, _. split; [reflexivity|]. split; [exact HI1|]. split; [exact I | discriminate]. }
+          destruct (negb (i64_fits (Z.of_N ep + d))).
+          { eexists _, _. split; [reflexivity|]. split; [exact HI1|]. split; [exact I | discriminate]. }
+          unfold seek_target. destruct (Z.of_N ep + d <? 0)%Z.
+          -- eexists _, _. split; [reflexivity|]. split; [exact HI1|]. split; [exact I | discriminate].
           -- apply Hfin; exact HI1.
-        * eexists _, _. split; [reflexivity|]. split; [exact HI1|]. split; [discriminate | exact I].
+        * eexists _, _. split; [reflexivity|]. split; [exact HI1|]. split; [exact I | discriminate].
         * exfalso. unfold end_pos_of_inner in Eep.
           destruct (len w mod CTS =? 0); [discriminate|]. destruct (len w mod CTS <? TAG); discriminate.
+  Qed.
+
+  (* no panic: the chunk number is a u32 and CHUNK_SIZE < 2^31, so the position stays below 2^63 *)
+  Theorem eseek_inv s wh : CHUNK < 2 ^ 31 -> InvA s -> e_chunk s < 2 ^ 32 ->
+    exists s' r, eseek s wh = (s', r) /\ InvA s' /\ (forall c, r <> Crash c) /\ seek_post s' r.
+  Proof.
+    intros HC31 HI Hk. destruct (eseek_inv_weak s wh HI) as (s' & r & He & HI' & Hp & Hcr).
+    exists s', r. split; [exact He|]. split; [exact HI'|]. split; [|exact Hp].
+    intros c Hc. destruct (Hcr c Hc) as (_ & Hbig & _). destruct HI as (_ & Hcp & _). unfold epos in Hbig.
+    change (2 ^ 63) with (2 ^ 32 * 2 ^ 31) in Hbig. nia.
+  Qed.
+
+  (* the chunk number stays a u32 *)
+  Lemma eload_chunk s : e_chunk (fst (eload s)) = e_chunk s.
+  Proof.
+    unfold EncLayer.eload. destruct (read_full _ _ _ _) as [i' [dt|e|c]]; [|reflexivity..].
+    destruct (len dt =? 0); [reflexivity|]. destruct (len dt <? TAG); [reflexivity|].
+    destruct (bytes_eqb _ _); reflexivity.
+  Qed.
+  Lemma eseek_start_chunk32 s q : e_chunk s < 2 ^ 32 -> e_chunk (fst (eseek_start s q)) < 2 ^ 32.
+  Proof.
+    intros Hk. unfold EncLayer.eseek_start. destruct (_ <? q / CHUNK); [exact Hk|].
+    destruct (sk S (e_in s) _) as [i' [p|e|c]]; [|exact Hk..].
+    destruct (N.leb_spec (2 ^ 32) (notag2tag CHUNK TAG q / CTS)) as [?|Hlt]; [exact Hk|].
+    match goal with |- context [eload ?x] => pose proof (eload_chunk x) as Hl; destruct (eload x) as [s2 [b|e|c]] end;
+      cbn [fst e_chunk] in Hl |- *; rewrite Hl; exact Hlt.
+  Qed.
+  Lemma eseek_chunk32 s wh : e_chunk s < 2 ^ 32 -> e_chunk (fst (eseek s wh)) < 2 ^ 32.
+  Proof.
+    intros Hk. unfold EncLayer.eseek. destruct wh as [q|d|d].
+    - apply eseek_start_chunk32; exact Hk.
+    - destruct (d =? 0)%Z; [exact Hk|]. destruct (2 ^ 63 <=? _); [exact Hk|].
+      destruct (seek_target _ d) as [q|e|c]; [|exact Hk..]. apply eseek_start_chunk32; exact Hk.
+    - destruct (0 <? d)%Z; [exact Hk|].
+      destruct (sk S (e_in s) (FromEnd 0)) as [i' [ei|e|c]]; [|exact Hk..].
+      destruct (end_pos_of_inner CHUNK TAG ei) as [ep|e|c]; [|exact Hk..].
+      destruct (2 ^ 63 <=? ep); [exact Hk|]. destruct (negb _); [exact Hk|].
+      destruct (seek_target ep d) as [q|e|c]; [|exact Hk..]. apply eseek_start_chunk32; exact Hk.
+  Qed.
+  Lemma eread_chunk32 s n : e_chunk s < 2 ^ 32 -> e_chunk (fst (eread s n)) < 2 ^ 32.
+  Proof.
+    intros Hk. unfold EncLayer.eread, EncLayer.eread_gen.
+    destruct (csub 416 CHUNK (e_cpos s)) as [[|av]|e|c]; [|exact Hk..].
+    destruct (N.leb_spec (2 ^ 32) (e_chunk s + 1)) as [?|Hlt]; [exact Hk|].
+    match goal with |- context [eload ?x] => pose proof (eload_chunk x) as Hl; destruct (eload x) as [s2 [[|]|e|c]] end;
+      cbn [fst e_chunk] in Hl |- *; try (rewrite Hl; exact Hlt).
+    destruct (csub 416 CHUNK (e_cpos s2)) as [[|av]|e|c]; cbn [fst eread_cache EncLayer.eread_cache e_chunk]; rewrite Hl; exact Hlt.
   Qed.
 
   Theorem enc_open_inv i0 pin : R i0 pin ->
@@ -449,7 +511,14 @@ Section EncAuth.
     - destruct (enc_open_inv i0 pin HR) as (s & r & He & HI & _). rewrite He. exact HI.
     - destruct o as [n|wh]; cbn [estep].
       + destruct (eread_inv s n IH) as (s' & r & He & HI & _). rewrite He. exact HI.
-      + destruct (eseek_inv s wh IH) as (s' & r & He & HI & _). rewrite He. exact HI.
+      + destruct (eseek_inv_weak s wh IH) as (s' & r & He & HI & _). rewrite He. exact HI.
+  Qed.
+
+  Theorem reach_chunk32 i0 s : reach i0 s -> e_chunk s < 2 ^ 32.
+  Proof.
+    intros Hre. induction Hre as [|s o Hre IH].
+    - unfold EncLayer.enc_open. apply eseek_start_chunk32. cbn [e_chunk]. lia.
+    - destruct o as [n|wh]; cbn [estep]; [apply eread_chunk32 | apply eseek_chunk32]; exact IH.
   Qed.
 
   (* THEOREM A.  Whatever the inner bytes, in any state reached from enc_open by any reads and
@@ -467,11 +536,11 @@ Section EncAuth.
     constructor. exact Hre.
   Qed.
 
-  Theorem enc_seek_position i0 pin s wh : R i0 pin -> reach i0 s ->
+  Theorem enc_seek_position i0 pin s wh : CHUNK < 2 ^ 31 -> R i0 pin -> reach i0 s ->
     exists s' r, eseek s wh = (s', r) /\ reach i0 s' /\ (forall c, r <> Crash c) /\ seek_post s' r.
   Proof.
-    intros HR Hre. pose proof (reach_inv i0 pin s HR Hre) as HI.
-    destruct (eseek_inv s wh HI) as (s' & r & He & _ & Hc & Hp).
+    intros HC31 HR Hre. pose proof (reach_inv i0 pin s HR Hre) as HI.
+    destruct (eseek_inv s wh HC31 HI (reach_chunk32 i0 s Hre)) as (s' & r & He & _ & Hc & Hp).
     exists s', r. split; [exact He|]. split; [|split; assumption].
     replace s' with (estep s (OSeek wh)) by (cbn [estep]; rewrite He; reflexivity).
     constructor. exact Hre.
